@@ -1378,7 +1378,7 @@ THR_PLACES = ["cli", "cli-eq", "main", "feature", "git-c"]
 THR_JOB_KEYS = ("minus", "plus", "thr", "place", "env", "cls", "sbs", "maxlen", "kind", "thr_kind")
 THR_KINDS = ["zero", "at", "above", "zero", "below", "one", "fixed", "zero", "default", "tiny"]
 ZEROS = ["0", "0.0", "0.00", "0e0", "00"]
-ONES = ["1", "1.0", "1.00", "1e0", "2"]
+ONES = ["1", "1.0", "1.00", "1e0", "2", "inf"]        # `inf`: an f64 like any other to clap; every pair is within it
 NOSPACE = re.compile("[" + "".join(WS) + "]")
 
 
@@ -1515,7 +1515,7 @@ def thr_choose(rng, k, dq):
     if kind == "tiny":        # a few units in the 3rd .. 6th decimal place: whether a long line pairs depends on it
         return kind, rng.choice(["0.001", "0.0009", "0.0011", "0.002", "0.0005", "0.0001", "0.00001", "1e-3", "0.01"])
     if kind == "fixed":
-        return kind, rng.choice(["0.6", "0.5", "0.3", "0.05", "0.9", "0.999", "0.25"])
+        return kind, rng.choice(["0.6", "0.5", "0.3", "0.05", "0.9", "0.999", "0.25", "nan"])      # `nan`: no distance is within it
     if kind == "at":
         s = dec_str(dq)
         if s is not None and len(s) <= 17:
